@@ -15,17 +15,17 @@ import (
 func init() {
 	register(&PropRules{
 		ID:      "C11",
-		Explain: "Linearizability — structural preconditions: (C11.1) confinement: every access to s.dir and every call of a store-library (lib.Dir / UserHash) method in cmd/whawty-auth runs only in the dispatcher goroutine (role analysis over the VTA call graph; NewStore's accesses precede the `go` that starts it), and no `go` statement is reachable from the dispatcher, so each operation's effect lies between its request and its response; (C11.2) request/response pairing as in C10.2 (fresh private response channel ⇒ no cross-talk) and the SASL per-connection handler writes no shared state; (C11.3) internally generated writes are atomic with their check: the upgrade write (an update request without response channel) is performed only under a successful authentication of the same user with the same password in the same dispatcher turn (or not queued at all); (C11.4) reload (the pointer swap of s.dir) is called only from the dispatcher; (C11.5) nothing answers in a frontend's place while its store request is pending: every registered web route is served by a chain of layers (library wrappers and module middlewares, read from their SSA) each of which calls the next one inside its own call and writes no answer before it — a layer that runs the wrapped handler in a goroutine of its own (http.TimeoutHandler, a middleware selecting on time.After / ctx.Done) is refused —, no frontend entry point starts a goroutine that sends a store request, and the store's answer is received without a select alternative.",
+		Explain: "Linearizability — structural preconditions: (C11.1) confinement: every access to s.dir and every call of a store-library (lib.Dir / UserHash) method in cmd/whawty-auth runs only in the dispatcher goroutine (role analysis over the VTA call graph; NewStore's accesses precede the `go` that starts it), and no `go` statement is reachable from the dispatcher, so each operation's effect lies between its request and its response; (C11.2) request/response pairing as in C10.2 (fresh private response channel ⇒ no cross-talk) and the SASL per-connection handler writes no shared state; (C11.3) internally generated writes are atomic with their check: the upgrade write (an update request without response channel) is performed only under a successful authentication of the same user with the same password in the same dispatcher turn (or not queued at all); (C11.4) reload (the pointer swap of s.dir) is called only from the dispatcher; (C11.5) nothing answers in a frontend's place while its store request is pending: every registered web route is served by a chain of layers (library wrappers and module middlewares, read from their SSA) each of which calls the next one inside its own call and writes no answer before it — a layer that runs the wrapped handler in a goroutine of its own (http.TimeoutHandler, a middleware selecting on time.After / ctx.Done) is refused —, no frontend entry point starts a goroutine that sends a store request, and the store's answer is received without a select alternative. Seed round 5: (C11.6, rule instance shared with C04.1) an authenticate answer is the answer Dir.Authenticate gave in the dispatcher turn that serves the request: s.authenticate calls it on s.dir with the request's own credentials on every path and returns its results 0..4 — no verdict, admin flag or timestamp from an earlier turn.",
 		Undec:   []string{"real-time histories as such (only the single-writer/turn structure is decided)", "multi-process access to one directory", "races inside net/http, glauth/ldap and other libraries"},
 		Run:     runC11,
-		Floors:  map[string]int{"C11.1": 10, "C11.2": 18, "C11.3": 1, "C11.4": 1, "C11.5": 14},
+		Floors:  map[string]int{"C11.1": 10, "C11.2": 18, "C11.3": 1, "C11.4": 1, "C11.5": 14, "C11.6": 2},
 	})
 	register(&PropRules{
 		ID:      "C12",
-		Explain: "Hash upgrades — structural part: (C12.1) UserHash.Authenticate reports upgradeable exactly as store.Default != <parameter-set id of the record just read> (false on every error return); (C12.2) the upgrade request is enqueued only under result.ok ∧ result.upgradeable ∧ upgradeChan != nil, carries the login's (username, password) unchanged and no response channel; NewStore maps \"\" → nil, \"local\" → the update queue, anything else → the remote upgrader (its error is fatal) and nothing else writes upgradeChan; (C12.3) a local upgrade is the ordinary update path (policy included, C17) and writeHashStr takes the hasher and the written parameter-set id from the same store.Default; (C12.4) the rewrite happens only for a password that is valid at rewrite time (= C11.3); (C12.5) with upgrades off no authentication can reach a mutation: the authenticate step has no call edge to a mutator (C15.2) and its only message is guarded by upgradeChan != nil.",
+		Explain: "Hash upgrades — structural part: (C12.1) UserHash.Authenticate reports upgradeable exactly as store.Default != <parameter-set id of the record just read> (false on every error return); (C12.2) the upgrade request is enqueued only under result.ok ∧ result.upgradeable ∧ upgradeChan != nil, carries the login's (username, password) unchanged and no response channel; NewStore maps \"\" → nil, \"local\" → the update queue, anything else → the remote upgrader (its error is fatal) and nothing else writes upgradeChan; (C12.3) a local upgrade is the ordinary update path (policy included, C17) and writeHashStr takes the hasher and the written parameter-set id from the same store.Default; (C12.4) the rewrite happens only for a password that is valid at rewrite time (= C11.3); (C12.5) with upgrades off no authentication can reach a mutation: the authenticate step has no call edge to a mutator (C15.2) and its only message is guarded by upgradeChan != nil. Seed round 5: (C12.6, rule instance shared with C08.3/C15.4) \"admin flag and auxiliary data unchanged\": an upgrade is an update through writeHashStr, which copies the rest of the old record verbatim behind the new first line on every path to the committing rename.",
 		Undec:   []string{"liveness: 'on an idle agent the rewrite does happen'", "the remote master's behaviour", "digest values (C14)"},
 		Run:     runC12,
-		Floors:  map[string]int{"C12.1": 1, "C12.2": 3, "C12.3": 2, "C12.4": 1},
+		Floors:  map[string]int{"C12.1": 1, "C12.2": 3, "C12.3": 2, "C12.4": 1, "C12.6": 1},
 	})
 }
 
